@@ -113,17 +113,19 @@ func rebuildCompareCommand() {
 func performCompare(processAll bool, ctx *processors.Context) error {
 	failed := false
 	if processAll {
-		err := filepath.WalkDir(ctx.RootContext().AssemblyDir(), func(filePath string, dirEntry fs.DirEntry, err error) error {
+		isAssemblyDir := true
+		err := utils.WalkDir(ctx.RootContext().AssemblyDir(), func(filePath string, dirEntry fs.DirEntry, err error) error {
 			if errors.Is(err, fs.ErrNotExist) {
 				// fail
 				return err
 			}
 			if dirEntry.IsDir() {
-				if filePath != ctx.RootContext().AssemblyDir() {
+				if !isAssemblyDir {
 					// The assembly files of rules are in the assembly directory itself. Word lists
 					// in sub-directories (include, exclude) are not rules, whatever their name.
 					return filepath.SkipDir
 				}
+				isAssemblyDir = false
 				return nil
 			}
 
